@@ -84,11 +84,16 @@ def scan(F, rep, ENGINE_FILES):
     # ---------------------------------------------------------------- EFFECT-STATIC
     rep.describe("EFFECT-STATIC", "statics exist only as tracing callsites (debug!) or the immutable lazy_static IDENTIFIERS map")
     nst = 0
+    plain_statics = set()
     for s in F.items["statics"]:
         exp = s.get("exp") or []
         ok = any("macro:Bang:debug" in e or "$crate::event" in e or "lazy_static" in e for e in exp)
         nst += 1
-        if not ok:
+        if not ok and not s["mut"] and not any(x in s["ty"] for x in INTERIOR) and "*" not in s["ty"] and "fn(" not in s["ty"] and "dyn " not in s["ty"]:
+            # a hand-written immutable table of plain data: a constant with an address, no state
+            rep.ok("EFFECT-STATIC", "EFFECT-STATIC/plain/" + s["path"], s["sp"], "immutable static of plain data (no interior mutability)", s["ty"][:80])
+            plain_statics.add(s["path"])
+        elif not ok:
             rep.bad("EFFECT-STATIC", "EFFECT-STATIC/" + s["path"], s["sp"], "static comes from a tracing / lazy_static expansion", "%s : %s" % (s["path"], s["ty"]))
         elif "lazy_static" in " ".join(exp):
             okty = not any(x in s["ty"] for x in INTERIOR if x not in ("Rc<",))
@@ -112,7 +117,7 @@ def scan(F, rep, ENGINE_FILES):
         for n in walk(f.body):
             if n.get("k") == "ThreadLocal" or (n.get("k") == "Call" and "LocalKey" in (n.get("fn") or "")):
                 rep.bad("EFFECT-INTERIOR", "EFFECT-INTERIOR/thread-local/" + name, n["sp"], "no thread-local state", show(n)[:80])
-            if n.get("k") == "Static" and not n.get("exp") and n.get("path") not in lazy_paths:
+            if n.get("k") == "Static" and not n.get("exp") and n.get("path") not in lazy_paths and n.get("path") not in plain_statics:
                 rep.bad("EFFECT-INTERIOR", "EFFECT-INTERIOR/static-ref/" + name, n["sp"], "hand-written code does not reference statics", n.get("path"))
 
     # ---------------------------------------------------------------- EFFECT-AMBIENT
